@@ -37,7 +37,9 @@ EXPLANATION = (
     "store on every path that returns a freshly built observation; R9.8 inside a loop of observe() a local assigned under a "
     "condition is re-initialised in the body before it is read (no value carried over from another iteration); R9.9 = C14's "
     "R14.1 (only scans write the visible health fields) applied here; R9.10 no describe_state implementation stores on self or "
-    "mutates one of its attributes (the state handed to observe is computed afresh). NOT decided: numerical equality of every leaf with the simulator's attribute at every step (needs "
+    "mutates one of its attributes (the state handed to observe is computed afresh); R9.11 every store of Folder.visible_health_status "
+    "is accompanied on every path by raising the flag Folder reports as `scanned_this_step` (the folder observation refreshes "
+    "only then). NOT decided: numerical equality of every leaf with the simulator's attribute at every step (needs "
     "execution), whether describe_state is called after all of the step's effects, and the contents of untyped "
     "dictionaries (NetworkInterface.traffic / nmne) below their top-level key."
 )
@@ -847,6 +849,52 @@ def r9_10(ctx: Ctx, om: ObsModel) -> None:
 
 
 
+def r9_11(ctx: Ctx, om: ObsModel) -> None:
+    """FolderObservation refreshes its health leaf only on a step in which the folder reports `scanned_this_step`.  Every function
+    of Folder that writes the folder's visible health therefore has to raise that flag on the same path - otherwise the visible value
+    changes and the observation keeps showing the remembered one."""
+    ix = ctx.ix
+    ctx.rule("R9.11", "every store of Folder.visible_health_status is accompanied, on every path through it, by `_scanned_this_step = True` "
+                      "(the flag the folder observation refreshes on)")
+    folder = ix.cls("Folder")
+    # the flag the observation consults: produced by Folder.describe_state under the key the observation reads
+    fo = ix.method("FolderObservation.observe")
+    if not any(isinstance(x, ast.Constant) and x.value == "scanned_this_step" for x in ast.walk(fo.node)):
+        ctx.ok("R9.11", ctx.key(fo, "the folder observation does not wait for a flag"), fo.loc(),
+               "FolderObservation.observe reads the visible value without consulting 'scanned_this_step': nothing to pair", trivial=True)
+        return
+    ds = ix.method("Folder.describe_state")
+    src = [unparse(st.value) for st in ast.walk(ds.node) if isinstance(st, ast.Assign) and any(
+        isinstance(t, ast.Subscript) and isinstance(t.slice, ast.Constant) and t.slice.value == "scanned_this_step" for t in st.targets)]
+    if len(src) != 1 or not src[0].startswith("self."):
+        raise AnalysisError(f"R9.11: cannot tell which attribute Folder reports as scanned_this_step ({src})")
+    flag = src[0][5:]
+    n = 0
+    for f in folder.methods.values():
+        if isinstance(f.node, ast.Lambda):
+            continue
+        g = None
+        for st in ast.walk(f.node):
+            if isinstance(st, ast.Assign) and any(isinstance(t, ast.Attribute) and t.attr == "visible_health_status" and unparse(t.value) == "self" for t in st.targets):
+                g = g or CFG(f.node)
+                sn = next((x for x in g.nodes if x.ast is st), None)
+                if sn is None:
+                    continue
+                n += 1
+                flags = {x.id for x in g.nodes if x.kind == "stmt" and isinstance(x.ast, ast.Assign) and any(
+                    isinstance(t, ast.Attribute) and t.attr == flag and unparse(t.value) == "self" for t in x.ast.targets)
+                    and isinstance(x.ast.value, ast.Constant) and x.ast.value.value is True}
+                before = g.path_avoiding([sn], lambda e: False, blocked_nodes=flags)
+                after = g.path_avoiding([g.exit], lambda e: False, start=sn, blocked_nodes=flags)
+                ok = before is None or after is None
+                ctx.record("R9.11", ctx.key(f, f"`{unparse(st)[:70]}` raises {flag}"), f.loc(st), ok,
+                           f"`{flag} = True` lies on every path through the store" if ok else
+                           f"{f.short} changes the folder's visible health without raising `{flag}`: the folder observation (requires_scan) does "
+                           f"not refresh and keeps showing the value of the previous scan", cfg_path_text(after))
+    ctx.floor("R9.11", "stores of Folder.visible_health_status", n, 2)
+
+
+
 def check(ctx: Ctx) -> None:
     om = ObsModel(ctx.ix)
     ctx.count("E6:describe_state implementations", len(om.schema.impls()))
@@ -859,6 +907,7 @@ def check(ctx: Ctx) -> None:
     r9_7(ctx, om)
     r9_8(ctx, om)
     r9_10(ctx, om)
+    r9_11(ctx, om)
     # 'the last-scanned (visible) value' is only that if nothing but a scan writes it: C14's who-may-write rule applies here too
     from . import c14
     with ctx.borrowed({"R14.1": "R9.9"}):
@@ -1048,4 +1097,13 @@ VARIANTS = [('Software + Service swap producers of visible/actual',
   'benign',
   'src/primaite/game/agent/observations/node_observations.py',
   [('                host_config.applications_requires_scan = config.applications_requires_scan',
-    '                inherited = config.applications_requires_scan\n                host_config.applications_requires_scan = inherited')])]
+    '                inherited = config.applications_requires_scan\n                host_config.applications_requires_scan = inherited')]),
+ ('revert: instant folder scan does not raise the scanned flag',
+  'breaking',
+  'src/primaite/simulator/file_system/folder.py',
+  [('            # the folder was scanned in this step: observations that wait for a scan refresh now\n            self._scanned_this_step = True\n            return True', '            return True')]),
+ ('describe_state memoises its file list',
+  'breaking',
+  'src/primaite/simulator/file_system/folder.py',
+  [('        state["scanned_this_step"] = self._scanned_this_step', '        state["scanned_this_step"] = self._scanned_this_step\n        self._last_state = state')])
+]
